@@ -46,8 +46,15 @@ type VerifC18Ent struct {
 	Del  bool     `json:"del"`
 }
 
+type VerifC18Mid struct {
+	After int           `json:"after"` // after the sink call with this index (0-based) has succeeded ...
+	Ds    int           `json:"ds"`    // ... these entities are stored into this dataset (a write DURING the run)
+	Es    []VerifC18Ent `json:"es"`
+}
+
 type VerifC18Op struct {
 	Op   string        `json:"op"` // w | run
+	Mid  *VerifC18Mid  `json:"mid,omitempty"`
 	Ds   int           `json:"ds"`
 	Es   []VerifC18Ent `json:"es"`
 	Full bool          `json:"full"`
@@ -69,6 +76,8 @@ type VerifC18RunObs struct {
 	Outcome string   `json:"outcome"` // ok | failed | panic | noresult
 	Emitted []int    `json:"emitted"` // ids handed to the sink in this run, sorted (with repeats)
 	Calls   []int    `json:"calls"`   // size of every sink call
+	MidDone bool     `json:"middone"` // the scripted write during the run was performed
+	Late    []int    `json:"late"`    // ids handed to the sink after that write, sorted
 	Foreign int      `json:"foreign"` // emitted entities that do not carry the main dataset's marker
 	Main    int      `json:"main"`    // main token (-1 = "")
 	Deps    [][2]int `json:"deps"`    // dependency tokens (dataset index, token; -1 = ""), sorted
@@ -101,6 +110,10 @@ type verifC18Sink struct {
 	ids    []int
 	calls  []int
 	foreign int
+	midAt   int
+	mid     func() error
+	midDone bool
+	late    []int
 }
 
 func (s *verifC18Sink) GetConfig() map[string]interface{}  { return s.inner.GetConfig() }
@@ -118,6 +131,9 @@ func (s *verifC18Sink) processEntities(runner *Runner, entities []*server.Entity
 	s.calls = append(s.calls, len(entities))
 	for _, e := range entities {
 		s.ids = append(s.ids, verifC18Code(e.ID))
+		if s.midDone {
+			s.late = append(s.late, verifC18Code(e.ID))
+		}
 		m, ok := e.Properties[s.prefix+":ds"]
 		if f, isf := m.(float64); isf {
 			m = int(f)
@@ -126,7 +142,16 @@ func (s *verifC18Sink) processEntities(runner *Runner, entities []*server.Entity
 			s.foreign++
 		}
 	}
-	return s.inner.processEntities(runner, entities)
+	if err := s.inner.processEntities(runner, entities); err != nil {
+		return err
+	}
+	if s.mid != nil && i == s.midAt && !s.midDone {
+		if err := s.mid(); err != nil {
+			return err
+		}
+		s.midDone = true
+	}
+	return nil
 }
 
 func verifC18Code(id string) int {
@@ -315,8 +340,45 @@ func VerifC18Run(c VerifC18Case, dir string) (obs VerifC18Obs) {
 		            {"triggerType":"cron","jobType":"fullsync","schedule":"@every 4000s"}],
 		"source":%s,"sink":{"Type":"DatasetSink","Name":"sink"}%s}`, verifC18JobID, verifC18JobID, c.Batch, srcJSON, transformJSON)
 
+	nonce := 0
+	storeEnts := func(dsi int, es []VerifC18Ent) error {
+		ds := env.dsm.GetDataset(verifC18Ds(dsi))
+		if ds == nil {
+			return errors.New("no dataset")
+		}
+		ents := make([]*server.Entity, len(es))
+		for i, t := range es {
+			nonce++
+			refs := map[string]interface{}{}
+			byPred := map[int][]string{}
+			order := []int{}
+			for _, r := range t.Refs {
+				if _, ok := byPred[r[0]]; !ok {
+					order = append(order, r[0])
+				}
+				byPred[r[0]] = append(byPred[r[0]], fmt.Sprintf("%s:e%d", prefix, r[1]))
+			}
+			for _, p := range order {
+				k := fmt.Sprintf("%s:p%d", prefix, p)
+				if len(byPred[p]) == 1 {
+					refs[k] = byPred[p][0]
+				} else {
+					refs[k] = byPred[p]
+				}
+			}
+			e := server.NewEntityFromMap(map[string]interface{}{
+				"id":    fmt.Sprintf("%s:e%d", prefix, t.ID),
+				"props": map[string]interface{}{prefix + ":ds": dsi, prefix + ":n": nonce},
+				"refs":  refs,
+			})
+			e.IsDeleted = t.Del
+			ents[i] = e
+		}
+		return ds.StoreEntities(ents)
+	}
+
 	depsRecorded := false
-	runOnce := func(full bool, failAt int) (r VerifC18RunObs, fatal error) {
+	runOnce := func(full bool, failAt int, mid *VerifC18Mid) (r VerifC18RunObs, fatal error) {
 		jc, err := env.sched.Parse([]byte(jobJSON))
 		if err != nil {
 			return r, err
@@ -352,6 +414,11 @@ func VerifC18Run(c VerifC18Case, dir string) (obs VerifC18Obs) {
 			return r, fmt.Errorf("sink is %T", spec.sink)
 		}
 		rec := &verifC18Sink{inner: spec.sink, failAt: failAt, prefix: prefix, mainDs: c.Main}
+		if mid != nil {
+			m := *mid
+			rec.midAt = m.After
+			rec.mid = func() error { return storeEnts(m.Ds, m.Es) }
+		}
 		spec.sink = rec
 		j := &job{dsm: env.dsm, id: jc.ID, title: jc.Title, pipeline: pl, schedule: "@every 2000s", runner: env.runner}
 		_ = env.store.DeleteObject(server.JobResultIndex, j.id)
@@ -380,6 +447,9 @@ func VerifC18Run(c VerifC18Case, dir string) (obs VerifC18Obs) {
 		r.Emitted = append([]int{}, rec.ids...)
 		sort.Ints(r.Emitted)
 		r.Calls = append([]int{}, rec.calls...)
+		r.MidDone = rec.midDone
+		r.Late = append([]int{}, rec.late...)
+		sort.Ints(r.Late)
 		r.Foreign = rec.foreign
 		st := &SyncJobState{}
 		_ = env.store.GetObject(server.JobDataIndex, verifC18JobID, st)
@@ -413,46 +483,13 @@ func VerifC18Run(c VerifC18Case, dir string) (obs VerifC18Obs) {
 		return r, nil
 	}
 
-	nonce := 0
 	for _, op := range c.Ops {
 		switch op.Op {
 		case "w":
 			if op.Ds < 0 || op.Ds >= c.Nds {
 				return fail("op", errors.New("bad dataset"))
 			}
-			ds := env.dsm.GetDataset(verifC18Ds(op.Ds))
-			if ds == nil {
-				return fail("op", errors.New("no dataset"))
-			}
-			ents := make([]*server.Entity, len(op.Es))
-			for i, t := range op.Es {
-				nonce++
-				refs := map[string]interface{}{}
-				byPred := map[int][]string{}
-				order := []int{}
-				for _, r := range t.Refs {
-					if _, ok := byPred[r[0]]; !ok {
-						order = append(order, r[0])
-					}
-					byPred[r[0]] = append(byPred[r[0]], fmt.Sprintf("%s:e%d", prefix, r[1]))
-				}
-				for _, p := range order {
-					k := fmt.Sprintf("%s:p%d", prefix, p)
-					if len(byPred[p]) == 1 {
-						refs[k] = byPred[p][0]
-					} else {
-						refs[k] = byPred[p]
-					}
-				}
-				e := server.NewEntityFromMap(map[string]interface{}{
-					"id":    fmt.Sprintf("%s:e%d", prefix, t.ID),
-					"props": map[string]interface{}{prefix + ":ds": op.Ds, prefix + ":n": nonce},
-					"refs":  refs,
-				})
-				e.IsDeleted = t.Del
-				ents[i] = e
-			}
-			if err := ds.StoreEntities(ents); err != nil {
+			if err := storeEnts(op.Ds, op.Es); err != nil {
 				return fail("store", err)
 			}
 		case "run":
@@ -460,7 +497,7 @@ func VerifC18Run(c VerifC18Case, dir string) (obs VerifC18Obs) {
 			if op.Fix {
 				prev := ""
 				for i := 0; i < 12; i++ {
-					r, err := runOnce(false, -1)
+					r, err := runOnce(false, -1, nil)
 					if err != nil {
 						return fail("run", err)
 					}
@@ -472,7 +509,7 @@ func VerifC18Run(c VerifC18Case, dir string) (obs VerifC18Obs) {
 					prev = cur
 				}
 			} else {
-				r, err := runOnce(op.Full, op.Fail)
+				r, err := runOnce(op.Full, op.Fail, op.Mid)
 				if err != nil {
 					return fail("run", err)
 				}
